@@ -30,7 +30,7 @@ ASSUMPTIONS = [
     'values are compared after the pickle round trip by ==',
 ]
 REQUIRED = ['expr_cases', 'expr_raising', 'async_cases', 'chain_ops', 'remote_objects',
-            'iterator_cases', 'queue_cases', 'concurrent_cases', 'shutdown_cases',
+            'iterator_cases', 'queue_cases', 'concurrent_cases', 'shutdown_cases', 'inflight_shutdown_cases',
             'transport_calls']
 CHUNK_TIMEOUT_S = {'quick': 150, 'thorough': 1500}
 
@@ -340,7 +340,34 @@ def case_shutdown(ctx, env, rng, cid):
   try:
     client.wait_until_alive(deadline_secs=10)
     ok_before = _outcome(lambda: client.get_result(env.lazy_fns.trace(c14lib.add)(2, 3)))
+    # Two calls are already running on the server when the shutdown is requested:
+    # one fails afterwards (must come back as the retriable TimeoutError), one
+    # succeeds afterwards (must come back with its value or the TimeoutError).
+    inflight = {}
+    keys = {'boom': f'k{cid}b', 'val': f'k{cid}v'}
+    for k in keys.values():
+      c14lib.EVENTS[k] = (threading.Event(), threading.Event())
+    t_boom = threading.Thread(target=lambda: inflight.__setitem__('boom', _outcome(
+        lambda: client.get_result(env.lazy_fns.trace(c14lib.wait_then_boom)(keys['boom'], 'late')))), daemon=True)
+    t_val = threading.Thread(target=lambda: inflight.__setitem__('val', _outcome(
+        lambda: client.get_result(env.lazy_fns.trace(c14lib.wait_then_value)(keys['val'], 41)))), daemon=True)
+    t_boom.start(); t_val.start()
+    entered = all(c14lib.EVENTS[k][0].wait(10) for k in keys.values())
     srv._request_shutdown()  # pylint: disable=protected-access
+    for k in keys.values():
+      c14lib.EVENTS[k][1].set()
+    t_boom.join(30); t_val.join(30)
+    if entered and not t_boom.is_alive() and not t_val.is_alive():
+      ctx.count('inflight_shutdown_cases')
+      b, v = inflight.get('boom'), inflight.get('val')
+      if not (b and b[0] == 'exc' and b[1] == 'TimeoutError'):
+        ctx.violation('inflight_failure_not_timeout', case, {'got': repr(b)},
+                      mechanism='shutdown-inflight-error-not-retriable')
+      if not (v and (v == ('ok', 41) or (v[0] == 'exc' and v[1] == 'TimeoutError'))):
+        ctx.violation('inflight_value_wrong', case, {'got': repr(v)},
+                      mechanism='shutdown-inflight-wrong-value')
+    else:
+      ctx.inconclusive_case('in-flight shutdown calls did not finish', case)
     finished, res, exc = env.cwork.run_with_watchdog(
         lambda: (_outcome(lambda: client.get_result(env.lazy_fns.trace(c14lib.boom)('value', 'x'))),
                  _outcome(lambda: client.get_result(env.lazy_fns.trace(c14lib.add)(2, 5))),
